@@ -743,6 +743,15 @@ func (ev *env) ret(r *ast.ReturnStmt) out {
 		return ev.block(nil)
 	}
 	errRet := "false"
+	if ev.hasErr && len(res) == 1 && len(ev.results) >= 1 {
+		// `return f(...)` where f returns (T..., error): value and error are both delegated to the call
+		// (e.g. `return shareDec.SdkIntTrim()`); a single result expression cannot be anything else in Go.
+		v := ev.expr(res[0])
+		if v.t != "tuple" && (len(ev.results) != 1 || v.t != ev.results[0]) {
+			bad("return type %s vs %v", v.t, ev.results)
+		}
+		return out{v.lean, conj(v.panics, "true"), errdisj(v.errs, "false")}
+	}
 	if ev.hasErr {
 		last := res[len(res)-1]
 		res = res[:len(res)-1]
